@@ -12,6 +12,8 @@ MPIEXEC = ["mpiexec", "--allow-run-as-root", "--oversubscribe", "--bind-to", "no
 TLA_CP = "/opt/veriftools/tla/tla2tools.jar:/opt/veriftools/tla/CommunityModules-deps.jar"
 
 _t0 = time.time()
+MAX_REJECTS = 30   # stop isolating rejections after this many per validation pass
+TLC_PAR = 6        # trace validations running at once
 
 
 def log(*a):
@@ -192,7 +194,7 @@ def chunks(lst, n):
 def _tlc(args, env=None, timeout=1200, heap="8g", cwd=SPEC):
     e = dict(os.environ)
     e.update(env or {})
-    cmd = ["java", "-XX:+UseParallelGC", "-Xmx" + heap, "-cp", TLA_CP, "tlc2.TLC"] + args
+    cmd = ["java", "-XX:+UseParallelGC", "-Xss256m", "-Xmx" + heap, "-cp", TLA_CP, "tlc2.TLC", "-noGenerateSpecTE"] + args
     try:
         p = subprocess.run(cmd, cwd=cwd, env=e, capture_output=True, text=True, timeout=timeout)
         return p.returncode, p.stdout + p.stderr
@@ -275,12 +277,14 @@ def _san(o):
     return o
 
 
-def tlc_validate(module, cfg, trace_events, timeout=1500, heap="8g", keep_trace=None, env=None):
+def tlc_validate(module, cfg, trace_events, timeout=1500, heap="8g", keep_trace=None, env=None, header=None):
     """validate one concatenated trace (list of JSON-able events) with a Trace_* spec.
     The spec reads the file named by env TRACE and must define a POSTCONDITION that prints
     "TRACE_MATCHED <n>" (the number of trace lines explained).  -> (accepted, matched, out)"""
     md = tempfile.mkdtemp(prefix="tlcv-", dir=SCRATCH)
     tf = keep_trace or os.path.join(md, "trace.ndjson")
+    if header is not None:
+        trace_events = [dict(header(trace_events), e="Header")] + list(trace_events)
     with open(tf, "w") as fh:
         for ev in trace_events:
             fh.write(json.dumps(_san(ev), separators=(",", ":")) + "\n")
@@ -302,7 +306,7 @@ def tlc_validate(module, cfg, trace_events, timeout=1500, heap="8g", keep_trace=
     return accepted, matched, out, tlc_stats(out)
 
 
-def validate_execs(module, cfg, traces, max_rejects=25, env=None, label=""):
+def validate_execs(module, cfg, traces, max_rejects=25, env=None, label="", header=None):
     """traces: list of (x, [events]) -- one per execution.  Concatenates them separated by
     Reset events, validates, and on a rejection isolates the offending execution and goes
     on with the rest so that every execution gets a verdict.
@@ -320,7 +324,9 @@ def validate_execs(module, cfg, traces, max_rejects=25, env=None, label=""):
             for i, ev in enumerate(evs):
                 events.append(ev)
                 owner.append((x, i))
-        ok, matched, out, st = tlc_validate(module, cfg, events, env=env)
+        ok, matched, out, st = tlc_validate(module, cfg, events, env=env, header=header)
+        if header is not None:
+            matched -= 1   # the header line
         states += st.get("distinct", 0)
         if ok:
             accepted += [x for x, _ in todo]
@@ -362,3 +368,98 @@ def save_replay(pid, name, obj):
     with open(p, "w") as fh:
         json.dump(obj, fh, indent=1, default=str)
     return p
+
+
+# ---------------------------------------------------------------- standard flow of a check
+
+def flat1(res):
+    """single-rank executions: one trace event per step"""
+    out = []
+    for s in res["steps"]:
+        e = s["rk"][0]
+        out.append({"e": s["e"], "a": e.get("a", {}), "rc": e.get("rc", "NONE"), "out": e.get("out", {}), "obs": e.get("obs", {})})
+    return out
+
+
+def flatn(res):
+    """multi-rank executions: one trace event per step with the per-rank records in rk"""
+    out = []
+    for s in res["steps"]:
+        out.append({"e": s["e"], "k": s["k"],
+                    "rk": [{"r": e["r"], "a": e.get("a", {}), "rc": e.get("rc", "NONE"), "out": e.get("out", {}), "obs": e.get("obs", {})} for e in s["rk"]]})
+    return out
+
+
+def run_validate(bld, execs, module, cfg, np=1, shim=False, san=False, env=None, par=12, chunk=1500, to_events=flat1,
+                 tag="rv", per_launch=None, tlc_env=None, per_step_timeout=20, header=None):
+    chunk = min(chunk, 200)
+    """run executions on the library and validate their traces with TLC.
+    execs may carry their own "np"/"env"/"shim" (grouped into separate launches).
+    -> (results, accepted ids, rejected [(x, idx, tlc tail)], trace states)"""
+    groups = {}
+    for ex in execs:
+        key = (ex.get("np", np), json.dumps(ex.get("lenv", env) or {}, sort_keys=True), ex.get("shim", shim))
+        groups.setdefault(key, []).append(ex)
+    jobs = []
+    for (n, e, sh), lst in groups.items():
+        size = per_launch or max(1, min(400, len(lst) // max(1, par // max(1, n)) + 1))
+        for i, ch in enumerate(chunks(lst, size)):
+            jobs.append({"execs": ch, "np": n, "env": json.loads(e), "shim": sh, "san": san,
+                         "tag": "%s_%d_%d" % (tag, len(jobs), i), "per_step_timeout": per_step_timeout})
+    log("%s: running %d executions in %d launches" % (tag, len(execs), len(jobs)))
+    res = run_parallel(bld, jobs, par=max(1, par // max(1, max(j["np"] for j in jobs))) if jobs else 1)
+    log("%s: executions done (%s)" % (tag, ", ".join("%s=%d" % (k, sum(1 for r in res.values() if r["status"] == k)) for k in sorted({r["status"] for r in res.values()}))))
+    traces = []
+    for ex in execs:
+        r = res[ex["x"]]
+        ev = to_events(r)
+        if r["status"] in ("hang", "crash", "incomplete"):
+            ev.append({"e": "ABNORMAL", "a": {"status": r["status"]}, "rc": r["status"], "out": {}, "obs": {}})
+        if r["status"] == "driver_error":
+            bad = [s for s in r["steps"] if any(e.get("rc") == "DRIVER_ERROR" for e in s["rk"])]
+            raise InfraError("driver error in %s: %s" % (ex["x"], json.dumps(bad[0])[:3000]))
+        traces.append((ex["x"], ev))
+    acc, rej, states = [], [], 0
+    lock = threading.Lock()
+    budget = [MAX_REJECTS]
+
+    def one(ch):
+        with lock:
+            b = budget[0]
+        if b <= 0:
+            return [], [], 0, len(ch)
+        a, r, st = validate_execs(module, cfg, ch, label=module, env=tlc_env, header=header, max_rejects=max(1, min(b, 6)))
+        with lock:
+            budget[0] -= len(r)
+        return a, r, st, len(ch) - len(a) - len(r)
+    unexamined = 0
+    with ThreadPoolExecutor(max_workers=TLC_PAR) as pool:
+        for a, r, st, un in pool.map(one, list(chunks(traces, chunk))):
+            acc += a
+            rej += r
+            states += st
+            unexamined += un
+    if unexamined:
+        log("%s: %d executions left unexamined after %d rejections (budget %d)" % (tag, unexamined, len(rej), MAX_REJECTS))
+    log("%s: validated: %d accepted, %d rejected" % (tag, len(acc), len(rej)))
+    return res, acc, rej, states
+
+
+def confirm(bld, execs, rej, module, cfg, **kw):
+    """a rejection counts only if an immediate re-run of the same execution is rejected again"""
+    if not rej:
+        return []
+    byx = {e["x"]: e for e in execs}
+    again = [byx[x] for x, _, _ in rej]
+    kw = dict(kw)
+    kw["par"] = 4
+    kw["tag"] = "confirm"
+    res2, acc2, rej2, _ = run_validate(bld, again, module, cfg, **kw)
+    rej2x = {x: (i, t) for x, i, t in rej2}
+    out = []
+    for x, idx, tail in rej:
+        if x in rej2x:
+            out.append((x, idx, tail, res2[x]))
+        else:
+            log("rejection of %s not reproduced on re-run: dropped" % x)
+    return out
